@@ -44,16 +44,16 @@ Hypothesis tmp_ne : tmp <> Target.
 Let data := concat chunks.
 
 Inductive phase :=
-| PStart | PWriting (d : content) (rest : list content) | PClosed | PStatted | PChmodded | PChowned | PDone.
+| PStart | PWriting (d : content) (rest : list content) | PClosed | PStatted | PMeta1 | PMeta2 | PDone.
 
 Definition remaining (ph : phase) : list instr :=
   match ph with
-  | PStart => prog chunks
-  | PWriting _ rest => map IWrite rest ++ tail5
-  | PClosed => [IStat; IChmod; IChown; IRename]
-  | PStatted => [IChmod; IChown; IRename]
-  | PChmodded => [IChown; IRename]
-  | PChowned => [IRename]
+  | PStart => prog v chunks
+  | PWriting _ rest => map IWrite rest ++ tail5 v
+  | PClosed => [IStat; meta1 v; meta2 v; IRename]
+  | PStatted => [meta1 v; meta2 v; IRename]
+  | PMeta1 => [meta2 v; IRename]
+  | PMeta2 => [IRename]
   | PDone => []
   end.
 
@@ -63,9 +63,9 @@ Definition next (ph : phase) : option (instr * phase) :=
   | PWriting d (c :: r) => Some (IWrite c, PWriting (d ++ c) r)
   | PWriting d [] => Some (IClose, PClosed)
   | PClosed => Some (IStat, PStatted)
-  | PStatted => Some (IChmod, PChmodded)
-  | PChmodded => Some (IChown, PChowned)
-  | PChowned => Some (IRename, PDone)
+  | PStatted => Some (meta1 v, PMeta1)
+  | PMeta1 => Some (meta2 v, PMeta2)
+  | PMeta2 => Some (IRename, PDone)
   | PDone => None
   end.
 
@@ -82,6 +82,11 @@ Definition winv (f : fs) (l : plocal) (ph : phase) : Prop :=
   | PWriting d rest => d ++ concat rest = data /\ poff l = length d /\ content_of f tmp = Some d
   | _ => content_of f tmp = Some data
   end.
+
+(* the phases between close and rename *)
+Definition closed_ph (ph : phase) : Prop := ph = PStatted \/ ph = PMeta1 \/ ph = PMeta2.
+Lemma winv_closed f l ph : closed_ph ph -> (pctl l = Run -> content_of f tmp = Some data) -> winv f l ph.
+Proof. intros [-> | [-> | ->]] H Hr; cbn; auto. Qed.
 
 Lemma content_upd_same f p x : content_of (upd f p (Some x)) p = Some (fcontent x).
 Proof. unfold content_of. now rewrite upd_same. Qed.
@@ -110,24 +115,107 @@ Qed.
 Lemma faulted_nofault flt : faulted flt = true -> flt = NoFault -> False.
 Proof. destruct flt; cbn; congruence. Qed.
 
+(* stat / chmod / chown between close and rename: the temporary file keeps the complete text *)
+Lemma step_stat f l flt ph' f' l' :
+  pctl l = Run -> content_of f tmp = Some data -> closed_ph ph' ->
+  step v e tmp (f, l) (IStat, flt) = (f', l') -> post f l IStat flt ph' f' l'.
+Proof.
+  intros Hc HI Hph Hs. unfold step, exec in Hs. rewrite Hc in Hs.
+  assert (Hf : f' = f /\ (flt = NoFault -> pctl l' = Run) /\ (pctl l' = Run -> pctl l = Run)).
+  { destruct flt, (sys_stat f Target), v; cbn in Hs; inversion Hs; subst; repeat split; auto; cbn; intros; congruence. }
+  destruct Hf as (-> & Hnf & Hb).
+  apply post_nochange; auto; try (intros; congruence). apply winv_closed; auto.
+Qed.
+
+Lemma step_chmod f l flt ph' f' l' :
+  pctl l = Run -> content_of f tmp = Some data -> closed_ph ph' ->
+  step v e tmp (f, l) (IChmod, flt) = (f', l') -> post f l IChmod flt ph' f' l'.
+Proof.
+  intros Hc HI Hph Hs. unfold step, exec in Hs. rewrite Hc in Hs.
+  unfold content_of in HI.
+  destruct (f tmp) as [x|] eqn:Hx; cbn in HI; [|discriminate]. inversion HI as [Hdata].
+  assert (Hkeep : content_of f tmp = Some data) by (unfold content_of; now rewrite Hx).
+  destruct (pst l) as [[m g]|] eqn:Hst.
+  2:{ cbn in Hs. inversion Hs; subst f' l'.
+      apply post_nochange; auto; try (intros; congruence). apply winv_closed; auto. }
+  destruct (faulted flt) eqn:Hflt.
+  + assert (Hf : f' = f /\ (pctl l' = Run -> pctl l = Run)).
+    { destruct v; cbn in Hs; inversion Hs; subst; split; auto; cbn; congruence. }
+    destruct Hf as (-> & Hb).
+    apply post_nochange; auto; try (intros; congruence).
+    * apply winv_closed; auto.
+    * intros Hnf; exfalso; eapply faulted_nofault; eauto.
+  + unfold sys_chmod in Hs. rewrite Hx in Hs. cbn in Hs. inversion Hs; subst f' l'; clear Hs.
+    apply post_tmp; [discriminate | | auto | auto].
+    apply winv_closed; auto. intros _. now rewrite content_upd_same.
+Qed.
+
+Lemma step_chown f l flt ph' f' l' :
+  pctl l = Run -> content_of f tmp = Some data -> closed_ph ph' ->
+  step v e tmp (f, l) (IChown, flt) = (f', l') -> post f l IChown flt ph' f' l'.
+Proof.
+  intros Hc HI Hph Hs. unfold step, exec in Hs. rewrite Hc in Hs.
+  unfold content_of in HI.
+  destruct (f tmp) as [x|] eqn:Hx; cbn in HI; [|discriminate]. inversion HI as [Hdata].
+  assert (Hkeep : content_of f tmp = Some data) by (unfold content_of; now rewrite Hx).
+  destruct (pst l) as [[m g]|] eqn:Hst.
+  2:{ cbn in Hs. inversion Hs; subst f' l'.
+      apply post_nochange; auto; try (intros; congruence). apply winv_closed; auto. }
+  destruct (faulted flt) eqn:Hflt.
+  + cbn in Hs. inversion Hs; subst f' l'.
+    apply post_nochange; auto; try (intros; congruence). apply winv_closed; auto.
+  + unfold sys_chown in Hs. rewrite Hx in Hs.
+    destruct (may_chown e g); cbn in Hs; inversion Hs; subst f' l'; clear Hs.
+    * apply post_tmp; [discriminate | | auto | auto].
+      apply winv_closed; auto. intros _. now rewrite content_upd_same.
+    * apply post_nochange; auto; try (intros; congruence). apply winv_closed; auto.
+Qed.
+
+Lemma step_meta f l flt i ph' f' l' :
+  i = IChmod \/ i = IChown ->
+  pctl l = Run -> content_of f tmp = Some data -> closed_ph ph' ->
+  step v e tmp (f, l) (i, flt) = (f', l') -> post f l i flt ph' f' l'.
+Proof. intros [-> | ->]; [apply step_chmod | apply step_chown]. Qed.
+
+Lemma meta_cases : (meta1 v = IChmod /\ meta2 v = IChown) \/ (meta1 v = IChown /\ meta2 v = IChmod).
+Proof. unfold meta1, meta2. destruct (chown_first v); auto. Qed.
+
+Lemma meta_not_rename : meta1 v <> IRename /\ meta2 v <> IRename.
+Proof. destruct meta_cases as [[-> ->] | [-> ->]]; split; discriminate. Qed.
+
+Lemma next_rename ph ph' : next ph = Some (IRename, ph') -> ph' = PDone.
+Proof.
+  destruct meta_not_rename as [H1 H2].
+  destruct ph as [|d [|c r]| | | | |]; cbn; intros H; inversion H; subst; auto; congruence.
+Qed.
+
+Lemma next_done ph i : next ph = Some (i, PDone) -> i = IRename.
+Proof. destruct ph as [|d [|c r]| | | | |]; cbn; intros H; inversion H; subst; auto. Qed.
+
+Lemma remaining_nil ph : remaining ph = [] -> ph = PDone.
+Proof. destruct ph as [|d [|c r]| | | | |]; cbn; unfold tail5; try discriminate; auto. Qed.
+
 Lemma exec_inv f l ph i ph' flt :
   winv f l ph -> next ph = Some (i, ph') ->
   forall f' l', step v e tmp (f, l) (i, flt) = (f', l') -> post f l i flt ph' f' l'.
 Proof.
-  intros HI Hn f' l' Hs. unfold step, exec in Hs.
+  intros HI Hn f' l' Hs.
   destruct (pctl l) eqn:Hc.
   2:{ (* Unwind *)
+    unfold step, exec in Hs. rewrite Hc in Hs.
     assert (Hf : f' = f /\ pctl l' <> Run).
     { destruct i; cbn in Hs; inversion Hs; subst; split; auto; cbn; congruence. }
     destruct Hf as [-> Hl'].
     apply post_nochange; try (intros; congruence). }
   2:{ (* Dead *)
+    unfold step, exec in Hs. rewrite Hc in Hs.
     cbn in Hs. inversion Hs; subst.
     apply post_nochange; try (intros; congruence). }
   (* Run *)
   unfold winv in HI. specialize (HI Hc).
   destruct ph as [|d [|c r]| | | | |]; cbn in Hn; inversion Hn; subst i ph'; clear Hn.
   - (* IOpen *)
+    unfold step, exec in Hs. rewrite Hc in Hs.
     destruct (faulted flt) eqn:Hflt; cbn in Hs; inversion Hs; subst f' l'; clear Hs.
     + apply post_nochange; cbn; try (intros; congruence).
       * intros Hr; cbn in Hr; congruence.
@@ -136,6 +224,7 @@ Proof.
       destruct (f tmp); (apply post_tmp; [discriminate | | auto | auto]);
         intros _; cbn; (split; [reflexivity|]); (split; [reflexivity|]); apply content_upd_same.
   - (* IClose after the last write *)
+    unfold step, exec in Hs. rewrite Hc in Hs.
     destruct HI as (Hd & Ho & Ht). cbn in Hd. rewrite app_nil_r in Hd.
     destruct (faulted flt) eqn:Hflt; cbn in Hs; inversion Hs; subst f' l'; clear Hs.
     + apply post_nochange; cbn; try (intros; congruence).
@@ -144,6 +233,7 @@ Proof.
     + apply post_nochange; try (intros; congruence); auto.
       intros _. rewrite <- Hd. exact Ht.
   - (* IWrite c *)
+    unfold step, exec in Hs. rewrite Hc in Hs.
     destruct HI as (Hd & Ho & Ht). cbn in Hd.
     destruct (faulted flt) eqn:Hflt; cbn in Hs; inversion Hs; subst f' l'; clear Hs.
     + apply post_nochange; cbn; try (intros; congruence).
@@ -156,46 +246,13 @@ Proof.
       * rewrite app_length. congruence.
       * rewrite content_upd_same. cbn. rewrite Ho. now rewrite pwrite_at_end.
   - (* IStat *)
-    cbn in HI.
-    assert (Hf : f' = f /\ (flt = NoFault -> pctl l' = Run) /\ (pctl l' = Run -> pctl l = Run)).
-    { destruct flt, (sys_stat f Target), v; cbn in Hs; inversion Hs; subst; repeat split; auto; cbn; intros; congruence. }
-    destruct Hf as (-> & Hnf & Hb).
-    apply post_nochange; auto; try (intros; congruence).
-  - (* IChmod *)
-    cbn in HI. unfold content_of in HI.
-    destruct (f tmp) as [x|] eqn:Hx; cbn in HI; [|discriminate]. inversion HI as [Hdata].
-    destruct (pst l) as [[m g]|] eqn:Hst.
-    2:{ cbn in Hs. inversion Hs; subst f' l'.
-        apply post_nochange; auto; try (intros; congruence).
-        intros _. cbn. unfold content_of. now rewrite Hx. }
-    destruct (faulted flt) eqn:Hflt.
-    + assert (Hf : f' = f /\ (pctl l' = Run -> pctl l = Run)).
-      { destruct v; cbn in Hs; inversion Hs; subst; split; auto; cbn; congruence. }
-      destruct Hf as (-> & Hb).
-      apply post_nochange; auto; try (intros; congruence).
-      * intros _. cbn. unfold content_of. now rewrite Hx.
-      * intros Hnf; exfalso; eapply faulted_nofault; eauto.
-    + unfold sys_chmod in Hs. rewrite Hx in Hs. cbn in Hs. inversion Hs; subst f' l'; clear Hs.
-      apply post_tmp; [discriminate | | auto | auto].
-      intros _. cbn. now rewrite content_upd_same.
-  - (* IChown *)
-    cbn in HI. unfold content_of in HI.
-    destruct (f tmp) as [x|] eqn:Hx; cbn in HI; [|discriminate]. inversion HI as [Hdata].
-    destruct (pst l) as [[m g]|] eqn:Hst.
-    2:{ cbn in Hs. inversion Hs; subst f' l'.
-        apply post_nochange; auto; try (intros; congruence).
-        intros _. cbn. unfold content_of. now rewrite Hx. }
-    destruct (faulted flt) eqn:Hflt.
-    + cbn in Hs. inversion Hs; subst f' l'.
-      apply post_nochange; auto; try (intros; congruence).
-      intros _. cbn. unfold content_of. now rewrite Hx.
-    + unfold sys_chown in Hs. rewrite Hx in Hs.
-      destruct (may_chown e g); cbn in Hs; inversion Hs; subst f' l'; clear Hs.
-      * apply post_tmp; [discriminate | | auto | auto].
-        intros _. cbn. now rewrite content_upd_same.
-      * apply post_nochange; auto; try (intros; congruence).
-        intros _. cbn. unfold content_of. now rewrite Hx.
+    apply step_stat; auto. left; reflexivity.
+  - (* first of chmod / chown *)
+    apply step_meta; auto; [destruct meta_cases as [[-> _] | [-> _]]; auto | right; left; reflexivity].
+  - (* second of chmod / chown *)
+    apply step_meta; auto; [destruct meta_cases as [[_ ->] | [_ ->]]; auto | right; right; reflexivity].
   - (* IRename *)
+    unfold step, exec in Hs. rewrite Hc in Hs.
     cbn in HI. unfold content_of in HI.
     destruct (f tmp) as [x|] eqn:Hx; cbn in HI; [|discriminate]. inversion HI as [Hdata].
     destruct (faulted flt) eqn:Hflt.
@@ -244,7 +301,7 @@ Proof.
         -- destruct Ht' as [Ht' | (Hc' & Hlen & Hrun' & _)].
            ++ left. congruence.
            ++ right. repeat split; auto; [cbn; lia | discriminate].
-        -- subst i. destruct ph as [|d [|c r]| | | | |]; cbn in Hn; inversion Hn; subst ph'.
+        -- subst i. apply next_rename in Hn. subst ph'.
            cbn in Hm'. apply map_eq_nil in Hm'. subst xs.
            rewrite firstn_nil in Hr. cbn in Hr. inversion Hr; subst f' l'.
            right. repeat split; auto; [cbn; lia | discriminate].
@@ -258,7 +315,7 @@ Lemma run_complete : forall xs ph f l,
   (pctl l' = Run /\ content_of f' Target = Some data /\ f' tmp = None) \/ (pctl l' <> Run /\ f' Target = f Target).
 Proof.
   induction xs as [|x xs IH]; intros ph f l Hm HI Hph f' l' Hr.
-  - destruct ph as [|d [|c r]| | | | |]; cbn in Hm; try discriminate. congruence.
+  - cbn in Hm. symmetry in Hm. apply remaining_nil in Hm. congruence.
   - rewrite remaining_next in Hm. destruct (next ph) as [[i ph']|] eqn:Hn; [|discriminate].
     cbn in Hm. inversion Hm as [[Hi Hm']].
     unfold run in Hr. cbn [fold_left] in Hr.
@@ -268,12 +325,12 @@ Proof.
     destruct Htg as [(Hsame & Hren) | (Hi & Hrun & Hc & _ & Hgone)].
     + destruct ph' eqn:Hph'.
       7:{ (* the step was the rename and it failed *)
-          destruct ph as [|d [|c r]| | | | |]; cbn in Hn; inversion Hn; subst i.
+          apply next_done in Hn. subst i.
           cbn in Hm'. apply map_eq_nil in Hm'. subst xs. cbn in Hr. inversion Hr; subst f' l'.
           right. split; auto. }
       all: destruct (IH _ f1 l1 Hm' HI1 ltac:(discriminate) f' l' Hr) as [Hok | (Hnr & Hsm)];
            [left; exact Hok | right; split; [exact Hnr | congruence]].
-    + subst i. destruct ph as [|d [|c r]| | | | |]; cbn in Hn; inversion Hn; subst ph'.
+    + subst i. apply next_rename in Hn. subst ph'.
       cbn in Hm'. apply map_eq_nil in Hm'. subst xs. cbn in Hr. inversion Hr; subst f' l'.
       left. split; auto.
 Qed.
@@ -311,7 +368,7 @@ Proof. discriminate. Qed.
    is the untouched old file, or holds the complete new text - and the latter only once the whole
    call sequence (whose last call is the rename) has been issued; no other path is touched *)
 Theorem crash_fault_atomic_gen : forall v e pid chunks f xs k f' l',
-  map fst xs = prog chunks ->
+  map fst xs = prog v chunks ->
   atomic_write v e pid f (firstn k xs) = (f', l') ->
   (f' Target = f Target \/ (content_of f' Target = Some (concat chunks) /\ length xs <= k)) /\
   (forall q, q <> Tmp pid -> q <> Target -> f' q = f q).
@@ -322,7 +379,7 @@ Proof.
 Qed.
 
 Theorem returns_iff_replaced_gen : forall v e pid chunks f xs f' l',
-  map fst xs = prog chunks ->
+  map fst xs = prog v chunks ->
   atomic_write v e pid f xs = (f', l') ->
   (raised l' = false /\ content_of f' Target = Some (concat chunks) /\ f' (Tmp pid) = None) \/
   (raised l' = true /\ f' Target = f Target).
@@ -334,13 +391,13 @@ Proof.
 Qed.
 
 Theorem nofault_returns : forall v e pid chunks f f' l',
-  atomic_write v e pid f (nofault (prog chunks)) = (f', l') ->
+  atomic_write v e pid f (nofault (prog v chunks)) = (f', l') ->
   raised l' = false /\ content_of f' Target = Some (concat chunks) /\ f' (Tmp pid) = None.
 Proof.
   intros v e pid chunks f f' l' Hr.
   assert (Hal : pctl l' = Run).
   { unfold atomic_write in Hr.
-    apply (run_nofault_alive v e (Tmp pid) chunks (tmp_target pid) (nofault (prog chunks)) PStart f loc0
+    apply (run_nofault_alive v e (Tmp pid) chunks (tmp_target pid) (nofault (prog v chunks)) PStart f loc0
              (map_fst_nofault _) (winv_start _ _ _ _) (nofault_all _) eq_refl f' l' Hr). }
   destruct (returns_iff_replaced_gen v e pid chunks f _ f' l' (map_fst_nofault _) Hr) as [Hok | (Hc & Ht)].
   - exact Hok.
@@ -364,7 +421,7 @@ Lemma step_beside v e tm tother cm co (old : option content) f lm lo phm pho i p
   (content_of f Target = old \/ content_of f Target = Some (concat cm) \/ content_of f Target = Some (concat co)) ->
   (committed phm lm \/ committed pho lo ->
      content_of f Target = Some (concat cm) \/ content_of f Target = Some (concat co)) ->
-  next cm phm = Some (i, phm') -> step v e tm (f, lm) (i, flt) = (f', lm') ->
+  next v cm phm = Some (i, phm') -> step v e tm (f, lm) (i, flt) = (f', lm') ->
   winv tm cm f' lm' phm' /\ winv tother co f' lo pho /\
   (content_of f' Target = old \/ content_of f' Target = Some (concat cm) \/ content_of f' Target = Some (concat co)) /\
   (committed phm' lm' \/ committed pho lo ->
@@ -379,7 +436,7 @@ Proof.
   - assert (Hcs : content_of f' Target = content_of f Target) by (unfold content_of; now rewrite Hsame).
     split; [rewrite Hcs; exact HT|]. split; [|exact Hal].
     intros [(Hd & Hr) | Hco]; rewrite Hcs.
-    + subst phm'. assert (i = IRename) by (destruct phm as [|d [|c r]| | | | |]; cbn in Hn; inversion Hn; auto).
+    + subst phm'. assert (i = IRename) by (eapply next_done; eauto).
       exfalso. apply Hren; auto.
     + apply HC. right. exact Hco.
   - split; [right; left; exact Hc|]. split; [|exact Hal]. intros _. left. exact Hc.
@@ -418,7 +475,7 @@ Lemma tmp12 : Tmp p1 <> Tmp p2. Proof. congruence. Qed.
 Lemma tmp21 : Tmp p2 <> Tmp p1. Proof. congruence. Qed.
 
 Lemma sstep_L s ph1 ph2 i ph1' flt :
-  Inv2 s ph1 ph2 -> next c1 ph1 = Some (i, ph1') ->
+  Inv2 s ph1 ph2 -> next v c1 ph1 = Some (i, ph1') ->
   Inv2 (sstep v e p1 p2 s (L, (i, flt))) ph1' ph2 /\
   loc2 (sstep v e p1 p2 s (L, (i, flt))) = loc2 s /\
   (flt = NoFault -> pctl (loc1 s) = Run -> pctl (loc1 (sstep v e p1 p2 s (L, (i, flt)))) = Run).
@@ -431,7 +488,7 @@ Proof.
 Qed.
 
 Lemma sstep_R s ph1 ph2 i ph2' flt :
-  Inv2 s ph1 ph2 -> next c2 ph2 = Some (i, ph2') ->
+  Inv2 s ph1 ph2 -> next v c2 ph2 = Some (i, ph2') ->
   Inv2 (sstep v e p1 p2 s (R, (i, flt))) ph1 ph2' /\
   loc1 (sstep v e p1 p2 s (R, (i, flt))) = loc1 s /\
   (flt = NoFault -> pctl (loc2 s) = Run -> pctl (loc2 (sstep v e p1 p2 s (R, (i, flt)))) = Run).
@@ -459,7 +516,7 @@ Proof. intros H. inversion H; subst. auto. Qed.
 
 (* G1, G2: "no fault is injected into writer 1 (2) at all" *)
 Lemma interleaved : forall l xs1 xs2 ph1 ph2 s (G1 G2 : Prop),
-  map fst xs1 = remaining c1 ph1 -> map fst xs2 = remaining c2 ph2 ->
+  map fst xs1 = remaining v c1 ph1 -> map fst xs2 = remaining v c2 ph2 ->
   Inv2 s ph1 ph2 ->
   (G1 -> nf xs1 /\ pctl (loc1 s) = Run) -> (G2 -> nf xs2 /\ pctl (loc2 s) = Run) ->
   interleave (tag L xs1) (tag R xs2) l ->
@@ -471,14 +528,14 @@ Proof.
   induction l as [|x l IH]; intros xs1 xs2 ph1 ph2 s G1 G2 Hm1 Hm2 HI Ha1 Ha2 Hil;
     apply interleave_tag_inv in Hil.
   - destruct Hil as [-> ->]. cbn in Hm1, Hm2.
-    assert (ph1 = PDone) by (destruct ph1 as [|d [|c r]| | | | |]; cbn in Hm1; unfold tail5 in Hm1; try discriminate; reflexivity).
-    assert (ph2 = PDone) by (destruct ph2 as [|d [|c r]| | | | |]; cbn in Hm2; unfold tail5 in Hm2; try discriminate; reflexivity).
+    assert (ph1 = PDone) by (symmetry in Hm1; eapply remaining_nil; eauto).
+    assert (ph2 = PDone) by (symmetry in Hm2; eapply remaining_nil; eauto).
     subst. split.
     + intros k. rewrite firstn_nil. cbn. destruct HI as (_ & _ & HT & _). exact HT.
     + cbn. split; [exact HI|]. split; intros g; [apply Ha1 | apply Ha2]; exact g.
   - assert (HT0 : target_in (sfs s)) by (destruct HI as (_ & _ & HT & _); exact HT).
     destruct Hil as [(y & xs1' & -> & -> & Hrest) | (y & xs2' & -> & -> & Hrest)].
-    + rewrite remaining_next in Hm1. destruct (next c1 ph1) as [[i ph1']|] eqn:Hn; [|discriminate].
+    + rewrite remaining_next in Hm1. destruct (next v c1 ph1) as [[i ph1']|] eqn:Hn; [|discriminate].
       cbn in Hm1. inversion Hm1 as [[Hi Hm1']]. destruct y as [i0 flt]. cbn in Hi. subst i0.
       destruct (sstep_L s ph1 ph2 i ph1' flt HI Hn) as (HI' & Hl2 & Hal).
       destruct (IH xs1' xs2 ph1' ph2 (sstep v e p1 p2 s (L, (i, flt))) G1 G2 Hm1' Hm2 HI') as (Hp & Hf & Hg1 & Hg2); auto.
@@ -486,7 +543,7 @@ Proof.
       * intros g. rewrite Hl2. apply Ha2; exact g.
       * split; [|cbn [srun fold_left]; auto].
         intros [|k]; cbn [firstn srun fold_left]; [exact HT0 | apply Hp].
-    + rewrite remaining_next in Hm2. destruct (next c2 ph2) as [[i ph2']|] eqn:Hn; [|discriminate].
+    + rewrite remaining_next in Hm2. destruct (next v c2 ph2) as [[i ph2']|] eqn:Hn; [|discriminate].
       cbn in Hm2. inversion Hm2 as [[Hi Hm2']]. destruct y as [i0 flt]. cbn in Hi. subst i0.
       destruct (sstep_R s ph1 ph2 i ph2' flt HI Hn) as (HI' & Hl1 & Hal).
       destruct (IH xs1 xs2' ph1 ph2' (sstep v e p1 p2 s (R, (i, flt))) G1 G2 Hm1 Hm2' HI') as (Hp & Hf & Hg1 & Hg2); auto.
@@ -505,7 +562,7 @@ Qed.
 (* any fault pattern in either writer *)
 Theorem two_writers_gen_sec : forall xs1 xs2 l f,
   content_of f Target = old ->
-  map fst xs1 = prog c1 -> map fst xs2 = prog c2 ->
+  map fst xs1 = prog v c1 -> map fst xs2 = prog v c2 ->
   interleave (tag L xs1) (tag R xs2) l ->
   (forall k, target_in (sfs (srun v e p1 p2 (sys0 f) (firstn k l)))) /\
   (pctl (loc1 (srun v e p1 p2 (sys0 f) l)) = Run \/ pctl (loc2 (srun v e p1 p2 (sys0 f) l)) = Run ->
@@ -545,25 +602,67 @@ Local Opaque N.add N.modulo N.div S_IFREG perm_mask kill_sugid sugid_free.
 Section Mode.
 Variables (v : variant) (e : env) (tmp : path) (chunks : list content) (c0 : content) (m g : N).
 Hypothesis tmp_ne : tmp <> Target.
-Hypothesis Hmode : (m < sugid_free)%N.
+(* chmod-then-chown keeps the mode only without set-uid/set-gid; chown-then-chmod keeps all 12 bits *)
+Definition mode_bound : N := if chown_first v then perm_mask else sugid_free.
+Hypothesis Hmode : (m < mode_bound)%N.
 Let data := concat chunks.
+
+Lemma Hperm : (m < perm_mask)%N.
+Proof. unfold mode_bound in Hmode. destruct (chown_first v); auto. now apply sugid_free_perm. Qed.
 
 (* which injected faults the statement tolerates: none on the unchanged code; on the repaired code
    any, except reporting ENOENT (a spurious "the original does not exist") *)
 Definition fault_ok (flt : fault) : Prop :=
-  match v with Orig => flt = NoFault | Fixed => flt <> FaultENOENT end.
+  match v with Orig => flt = NoFault | _ => flt <> FaultENOENT end.
+
+Definition tmp_mode (f : fs) : Prop := exists x, f tmp = Some x /\ fmode x = m.
+Definition orig_there (f : fs) : Prop := f Target = Some (mkFile c0 m g).
+Definition statted (l : plocal) : Prop := pst l = Some ((S_IFREG + m)%N, g).
 
 Definition minv (f : fs) (l : plocal) (ph : phase) : Prop :=
   pctl l = Run ->
   match ph with
   | PDone => True
-  | PStatted => f Target = Some (mkFile c0 m g) /\ pst l = Some ((S_IFREG + m)%N, g)
-  | PChmodded | PChowned => f Target = Some (mkFile c0 m g) /\ exists x, f tmp = Some x /\ fmode x = m
-  | _ => f Target = Some (mkFile c0 m g)
+  | PStatted => orig_there f /\ statted l
+  | PMeta1 => orig_there f /\ statted l /\ (chown_first v = false -> tmp_mode f)
+  | PMeta2 => orig_there f /\ tmp_mode f
+  | _ => orig_there f
   end.
 
+Lemma mode_chmod f l flt f' l' :
+  pctl l = Run -> orig_there f -> statted l -> (exists x, f tmp = Some x) -> fault_ok flt ->
+  step v e tmp (f, l) (IChmod, flt) = (f', l') -> pctl l' = Run ->
+  orig_there f' /\ statted l' /\ tmp_mode f'.
+Proof.
+  intros Hc HT Hst (x & Hx) Hok Hs Hr. unfold step, exec in Hs. rewrite Hc in Hs.
+  unfold statted in Hst. rewrite Hst in Hs.
+  destruct (faulted flt) eqn:Hflt.
+  - unfold fault_ok in Hok. destruct v; [subst flt; discriminate| |];
+      cbn in Hs; inversion Hs; subst f' l'; cbn in Hr; congruence.
+  - unfold sys_chmod in Hs. rewrite Hx in Hs. cbn in Hs. inversion Hs; subst f' l'.
+    split; [unfold orig_there; now rewrite upd_other by congruence|]. split; [exact Hst|].
+    eexists. rewrite upd_same. split; [reflexivity|]. cbn. apply st_mode_perm. exact Hperm.
+Qed.
+
+Lemma mode_chown f l flt f' l' :
+  pctl l = Run -> orig_there f -> statted l -> (exists x, f tmp = Some x) ->
+  step v e tmp (f, l) (IChown, flt) = (f', l') -> pctl l' = Run ->
+  orig_there f' /\ statted l' /\ (exists x, f' tmp = Some x) /\
+  ((m < sugid_free)%N -> tmp_mode f -> tmp_mode f').
+Proof.
+  intros Hc HT Hst (x & Hx) Hs Hr. unfold step, exec in Hs. rewrite Hc in Hs.
+  unfold statted in Hst. rewrite Hst in Hs.
+  destruct (faulted flt); [cbn in Hs; inversion Hs; subst f' l'; eauto 6|].
+  unfold sys_chown in Hs. rewrite Hx in Hs.
+  destruct (may_chown e g); cbn in Hs; inversion Hs; subst f' l'; [|eauto 6].
+  split; [unfold orig_there; now rewrite upd_other by congruence|]. split; [exact Hst|].
+  split; [eexists; now rewrite upd_same|].
+  intros Hsm (y & Hy & Hym). rewrite Hx in Hy. inversion Hy; subst y.
+  eexists. rewrite upd_same. split; [reflexivity|]. cbn [fmode]. rewrite Hym. now apply kill_sugid_small.
+Qed.
+
 Lemma exec_minv f l ph i ph' flt :
-  winv tmp chunks f l ph -> minv f l ph -> next chunks ph = Some (i, ph') -> fault_ok flt ->
+  winv tmp chunks f l ph -> minv f l ph -> next v chunks ph = Some (i, ph') -> fault_ok flt ->
   forall f' l', step v e tmp (f, l) (i, flt) = (f', l') ->
   minv f' l' ph' /\
   (i = IRename -> pctl l' = Run -> exists x, f' Target = Some x /\ fmode x = m /\ fcontent x = data).
@@ -573,58 +672,64 @@ Proof.
   destruct (pctl l) eqn:Hc.
   2,3: split; [intros Hr; specialize (Hback Hr); congruence | intros _ Hr; specialize (Hback Hr); congruence].
   unfold winv in HI. specialize (HI Hc). unfold minv in HM. specialize (HM Hc).
-  unfold step, exec in Hs. rewrite Hc in Hs.
   destruct ph as [|d [|c r]| | | | |]; cbn in Hn; inversion Hn; subst i ph'; clear Hn.
   - (* IOpen *)
-    split; [|discriminate]. intros _.
+    unfold step, exec in Hs. rewrite Hc in Hs.
+    split; [|discriminate]. intros _. unfold orig_there in *.
     destruct (faulted flt); cbn in Hs; inversion Hs; subst f' l'; auto.
     unfold sys_open_trunc. destruct (f tmp); now rewrite upd_other by congruence.
   - (* IClose *)
+    unfold step, exec in Hs. rewrite Hc in Hs.
     split; [|discriminate]. intros _.
     destruct (faulted flt); cbn in Hs; inversion Hs; subst f' l'; auto.
   - (* IWrite *)
-    split; [|discriminate]. intros _.
+    unfold step, exec in Hs. rewrite Hc in Hs.
+    split; [|discriminate]. intros _. unfold orig_there in *.
     destruct (faulted flt); cbn in Hs; inversion Hs; subst f' l'; auto.
     unfold sys_write. destruct (f tmp); [now rewrite upd_other by congruence | auto].
   - (* IStat *)
-    split; [|discriminate]. intros Hr.
+    unfold step, exec in Hs. rewrite Hc in Hs.
+    split; [|discriminate]. intros Hr. unfold orig_there in HM.
     unfold sys_stat in Hs. rewrite HM in Hs. cbn [fmode fgid] in Hs.
-    unfold fault_ok in Hok.
+    unfold fault_ok in Hok. unfold orig_there, statted.
     destruct flt, v; try congruence; cbn in Hs; inversion Hs; subst f' l'; cbn in Hr; try congruence; auto.
-  - (* IChmod *)
-    split; [|discriminate]. intros Hr. destruct HM as [HT Hst]. rewrite Hst in Hs.
-    unfold content_of in HI. destruct (f tmp) as [x|] eqn:Hx; cbn in HI; [|discriminate].
-    destruct (faulted flt) eqn:Hflt.
-    + unfold fault_ok in Hok. destruct v; [subst flt; discriminate|].
-      cbn in Hs. inversion Hs; subst f' l'. cbn in Hr. congruence.
-    + unfold sys_chmod in Hs. rewrite Hx in Hs. cbn in Hs. inversion Hs; subst f' l'.
-      split; [now rewrite upd_other by congruence|].
-      eexists. rewrite upd_same. split; [reflexivity|]. cbn. apply st_mode_perm. now apply sugid_free_perm.
-  - (* IChown *)
-    split; [|discriminate]. intros Hr. destruct HM as [HT (x & Hx & Hxm)].
-    destruct (pst l) as [[m' g']|]; [|cbn in Hs; inversion Hs; subst f' l'; eauto].
-    destruct (faulted flt); [cbn in Hs; inversion Hs; subst f' l'; eauto|].
-    unfold sys_chown in Hs. rewrite Hx in Hs.
-    destruct (may_chown e g'); cbn in Hs; inversion Hs; subst f' l'; [|eauto].
-    split; [now rewrite upd_other by congruence|].
-    eexists. rewrite upd_same. split; [reflexivity|]. cbn [fmode]. rewrite Hxm. now apply kill_sugid_small.
+  - (* first of chmod / chown *)
+    destruct HM as [HT Hst].
+    assert (Hex : exists x, f tmp = Some x).
+    { cbn in HI. unfold content_of in HI. destruct (f tmp) as [x|]; [eauto | discriminate]. }
+    unfold meta1 in *. destruct (chown_first v) eqn:Hcf.
+    + split; [|discriminate]. intros Hr.
+      destruct (mode_chown f l flt f' l' Hc HT Hst Hex Hs Hr) as (A & B & _ & _).
+      split; [exact A|]. split; [exact B|]. intros Hx; congruence.
+    + split; [|discriminate]. intros Hr.
+      destruct (mode_chmod f l flt f' l' Hc HT Hst Hex Hok Hs Hr) as (A & B & C). auto.
+  - (* second of chmod / chown *)
+    destruct HM as (HT & Hst & Htm).
+    assert (Hex : exists x, f tmp = Some x).
+    { cbn in HI. unfold content_of in HI. destruct (f tmp) as [x|]; [eauto | discriminate]. }
+    pose proof Hmode as Hmb. unfold mode_bound in Hmb. unfold meta2 in *. destruct (chown_first v) eqn:Hcf.
+    + split; [|discriminate]. intros Hr.
+      destruct (mode_chmod f l flt f' l' Hc HT Hst Hex Hok Hs Hr) as (A & B & C). auto.
+    + split; [|discriminate]. intros Hr.
+      destruct (mode_chown f l flt f' l' Hc HT Hst Hex Hs Hr) as (A & B & _ & D). auto.
   - (* IRename *)
+    unfold step, exec in Hs. rewrite Hc in Hs.
     split; [intros _; exact I|]. intros _ Hr. destruct HM as [HT (x & Hx & Hxm)].
-    unfold content_of in HI. rewrite Hx in HI. cbn in HI. inversion HI as [Hdata].
+    cbn in HI. unfold content_of in HI. rewrite Hx in HI. cbn in HI. inversion HI as [Hdata].
     destruct (faulted flt); [cbn in Hs; inversion Hs; subst f' l'; cbn in Hr; congruence|].
     unfold sys_rename in Hs. rewrite Hx in Hs. cbn in Hs. inversion Hs; subst f' l'.
     exists x. rewrite upd_other by congruence. rewrite upd_same. auto.
 Qed.
 
 Lemma run_mode : forall xs ph f l,
-  map fst xs = remaining chunks ph -> winv tmp chunks f l ph -> minv f l ph -> ph <> PDone ->
+  map fst xs = remaining v chunks ph -> winv tmp chunks f l ph -> minv f l ph -> ph <> PDone ->
   Forall (fun x => fault_ok (snd x)) xs ->
   forall f' l', run v e tmp (f, l) xs = (f', l') -> pctl l' = Run ->
   exists x, f' Target = Some x /\ fmode x = m /\ fcontent x = data.
 Proof.
   induction xs as [|x xs IH]; intros ph f l Hm HI HM Hph Hok f' l' Hr Hrun.
-  - destruct ph as [|d [|c r]| | | | |]; cbn in Hm; unfold tail5 in Hm; try discriminate. congruence.
-  - rewrite remaining_next in Hm. destruct (next chunks ph) as [[i ph']|] eqn:Hn; [|discriminate].
+  - cbn in Hm. symmetry in Hm. apply remaining_nil in Hm. congruence.
+  - rewrite remaining_next in Hm. destruct (next v chunks ph) as [[i ph']|] eqn:Hn; [|discriminate].
     cbn in Hm. inversion Hm as [[Hi Hm']].
     unfold run in Hr. cbn [fold_left] in Hr.
     destruct x as [i0 flt]. cbn in Hi. subst i0.
@@ -633,21 +738,21 @@ Proof.
     destruct (exec_inv v e tmp chunks tmp_ne f l ph i ph' flt HI Hn f1 l1 Hs) as (HI1 & _).
     destruct (exec_minv f l ph i ph' flt HI HM Hn Hx f1 l1 Hs) as (HM1 & Hren).
     destruct ph' eqn:Hph'.
-    7:{ destruct ph as [|d [|c r]| | | | |]; cbn in Hn; inversion Hn; subst i.
+    7:{ apply next_done in Hn. subst i.
         cbn in Hm'. apply map_eq_nil in Hm'. subst xs. cbn in Hr. inversion Hr; subst f' l'.
         apply Hren; auto. }
     all: eapply (IH _ f1 l1 Hm' HI1 HM1 ltac:(discriminate) Hok' f' l' Hr Hrun).
 Qed.
 End Mode.
 
-Lemma minv_start tmp c0 m g f l :
-  f Target = Some (mkFile c0 m g) -> minv tmp c0 m g f l PStart.
+Lemma minv_start v tmp c0 m g f l :
+  f Target = Some (mkFile c0 m g) -> minv v tmp c0 m g f l PStart.
 Proof. intros H _. exact H. Qed.
 
 (* after a call that returned normally the new file has the original's permission bits *)
 Theorem mode_preserved_gen : forall v e pid chunks c0 m g f xs f' l',
-  (m < sugid_free)%N -> f Target = Some (mkFile c0 m g) ->
-  map fst xs = prog chunks -> Forall (fun x => fault_ok v (snd x)) xs ->
+  (m < mode_bound v)%N -> f Target = Some (mkFile c0 m g) ->
+  map fst xs = prog v chunks -> Forall (fun x => fault_ok v (snd x)) xs ->
   atomic_write v e pid f xs = (f', l') ->
   (raised l' = false /\ exists x, f' Target = Some x /\ fcontent x = concat chunks /\ fmode x = m) \/
   (raised l' = true /\ f' Target = f Target).
@@ -657,7 +762,7 @@ Proof.
   split; auto. unfold atomic_write in Hr.
   assert (Hrun : pctl l' = Run) by (unfold raised in Hc; destruct (pctl l'); congruence).
   destruct (run_mode v e (Tmp pid) chunks c0 m g (tmp_target pid) Hm xs PStart f loc0 Hp
-              (winv_start _ _ _ _) (minv_start _ _ _ _ _ _ HT) ltac:(discriminate) Hok f' l' Hr Hrun)
+              (winv_start _ _ _ _) (minv_start _ _ _ _ _ _ _ HT) ltac:(discriminate) Hok f' l' Hr Hrun)
     as (x & Hx & Hxm & Hxc).
   exists x. auto.
 Qed.
@@ -669,10 +774,10 @@ Definition target_old_or_new (chunks : list content) (f f' : fs) : Prop :=
   content_of f' Target = content_of f Target \/ content_of f' Target = Some (concat chunks).
 
 Lemma crash_fault_atomic : forall v e pid chunks f xs k,
-  map fst xs = prog chunks ->
+  map fst xs = prog v chunks ->
   let f' := fst (atomic_write v e pid f (firstn k xs)) in
   target_old_or_new chunks f f' /\
-  (k < length (prog chunks) -> f' Target = f Target) /\
+  (k < length (prog v chunks) -> f' Target = f Target) /\
   (forall q, q <> Tmp pid -> q <> Target -> f' q = f q).
 Proof.
   intros v e pid chunks f xs k Hm f'. subst f'.
@@ -684,16 +789,16 @@ Proof.
 Qed.
 
 Lemma crash_atomic : forall v e pid chunks f k,
-  let f' := fst (atomic_write v e pid f (firstn k (nofault (prog chunks)))) in
+  let f' := fst (atomic_write v e pid f (firstn k (nofault (prog v chunks)))) in
   target_old_or_new chunks f f' /\
-  (k < length (prog chunks) -> f' Target = f Target) /\
+  (k < length (prog v chunks) -> f' Target = f Target) /\
   (forall q, q <> Tmp pid -> q <> Target -> f' q = f q).
 Proof. intros. apply crash_fault_atomic. apply map_fst_nofault. Qed.
 
 Lemma fault_atomic : forall v e pid chunks f j flt k,
-  let f' := fst (atomic_write v e pid f (firstn k (inject j flt (prog chunks)))) in
+  let f' := fst (atomic_write v e pid f (firstn k (inject j flt (prog v chunks)))) in
   target_old_or_new chunks f f' /\
-  (k < length (prog chunks) -> f' Target = f Target) /\
+  (k < length (prog v chunks) -> f' Target = f Target) /\
   (forall q, q <> Tmp pid -> q <> Target -> f' q = f q).
 Proof. intros. apply crash_fault_atomic. apply map_fst_inject. Qed.
 
@@ -704,33 +809,33 @@ Proof.
 Qed.
 
 Lemma mode_preserved : forall v e pid chunks c0 m g f,
-  (m < sugid_free)%N -> f Target = Some (mkFile c0 m g) ->
-  let r := atomic_write v e pid f (nofault (prog chunks)) in
+  (m < mode_bound v)%N -> f Target = Some (mkFile c0 m g) ->
+  let r := atomic_write v e pid f (nofault (prog v chunks)) in
   raised (snd r) = false /\
   exists x, fst r Target = Some x /\ fcontent x = concat chunks /\ fmode x = m.
 Proof.
   intros v e pid chunks c0 m g f Hm HT r. subst r.
-  destruct (atomic_write v e pid f (nofault (prog chunks))) as [f' l'] eqn:Hr. cbn [fst snd].
+  destruct (atomic_write v e pid f (nofault (prog v chunks))) as [f' l'] eqn:Hr. cbn [fst snd].
   destruct (nofault_returns v e pid chunks f f' l' Hr) as (Hok & _).
   destruct (mode_preserved_gen v e pid chunks c0 m g f _ f' l' Hm HT (map_fst_nofault _) (fault_ok_nofault v _) Hr)
     as [(_ & Hx) | (Hbad & _)]; [split; auto | congruence].
 Qed.
 
-Lemma mode_preserved_under_fault : forall e pid chunks c0 m g f xs,
-  (m < sugid_free)%N -> f Target = Some (mkFile c0 m g) ->
-  map fst xs = prog chunks -> Forall (fun x => snd x <> FaultENOENT) xs ->
-  let r := atomic_write Fixed e pid f xs in
+Lemma mode_preserved_under_fault : forall v e pid chunks c0 m g f xs,
+  v <> Orig -> (m < mode_bound v)%N -> f Target = Some (mkFile c0 m g) ->
+  map fst xs = prog v chunks -> Forall (fun x => snd x <> FaultENOENT) xs ->
+  let r := atomic_write v e pid f xs in
   (raised (snd r) = false /\ exists x, fst r Target = Some x /\ fcontent x = concat chunks /\ fmode x = m) \/
   (raised (snd r) = true /\ fst r Target = f Target).
 Proof.
-  intros e pid chunks c0 m g f xs Hm HT Hp Hok r. subst r.
-  destruct (atomic_write Fixed e pid f xs) as [f' l'] eqn:Hr. cbn [fst snd].
-  apply (mode_preserved_gen Fixed e pid chunks c0 m g f xs f' l' Hm HT Hp); [|exact Hr].
-  eapply Forall_impl; [|exact Hok]. intros a Ha. exact Ha.
+  intros v e pid chunks c0 m g f xs Hv Hm HT Hp Hok r. subst r.
+  destruct (atomic_write v e pid f xs) as [f' l'] eqn:Hr. cbn [fst snd].
+  apply (mode_preserved_gen v e pid chunks c0 m g f xs f' l' Hm HT Hp); [|exact Hr].
+  eapply Forall_impl; [|exact Hok]. intros a Ha. unfold fault_ok. destruct v; [congruence | exact Ha | exact Ha].
 Qed.
 
 Lemma two_writers_faults : forall v e p1 p2 c1 c2 f xs1 xs2 l,
-  p1 <> p2 -> map fst xs1 = prog c1 -> map fst xs2 = prog c2 ->
+  p1 <> p2 -> map fst xs1 = prog v c1 -> map fst xs2 = prog v c2 ->
   interleave (tag L xs1) (tag R xs2) l ->
   (forall k, target_in c1 c2 (content_of f Target) (sfs (srun v e p1 p2 (sys0 f) (firstn k l)))) /\
   (raised (loc1 (srun v e p1 p2 (sys0 f) l)) = false \/ raised (loc2 (srun v e p1 p2 (sys0 f) l)) = false ->
@@ -744,7 +849,7 @@ Qed.
 
 Lemma two_writers : forall v e p1 p2 c1 c2 f l,
   p1 <> p2 ->
-  interleave (tag L (nofault (prog c1))) (tag R (nofault (prog c2))) l ->
+  interleave (tag L (nofault (prog v c1))) (tag R (nofault (prog v c2))) l ->
   (forall k, target_in c1 c2 (content_of f Target) (sfs (srun v e p1 p2 (sys0 f) (firstn k l)))) /\
   target_new c1 c2 (sfs (srun v e p1 p2 (sys0 f) l)) /\
   raised (loc1 (srun v e p1 p2 (sys0 f) l)) = false /\ raised (loc2 (srun v e p1 p2 (sys0 f) l)) = false.
